@@ -225,9 +225,10 @@ pub fn check_case(case: &Case, macros: &Mutex<MacroAlphabets>, tier: Tier) -> Op
     }
     let mut cfg = TreeCfg::default();
     let mut sz = sizes_for(vlevels, tier);
-    if vlevels == 2 && tier == Tier::Quick && matches!(case.law, Law::Disc { .. }) {
-        // discrete two-level trees (BTPE, H2PE, Zipf, Zeta) are cheap: twice the resolution per level in the quick tier
-        sz = vec![1 << 10, 1 << 10, 16, 8];
+    if vlevels == 2 && matches!(case.law, Law::Disc { .. }) {
+        // discrete two-level trees (BTPE, H2PE, Zipf, Zeta): the second word is mostly resolved by subdivision, so the
+        // first level is cheap to refine; the second size sets the floor (one second-level cell)
+        sz = if tier == Tier::Quick { vec![1 << 12, 1 << 11, 16, 8] } else { vec![1 << 14, 1 << 12, 32, 8] };
     }
     if let Ok(v) = std::env::var("VERIF_SIZES") {
         sz = v.split(',').filter_map(|x| x.parse().ok()).collect();
